@@ -470,6 +470,7 @@ pub fn testrun_main(args: &[String]) {
     let cases = [
         ("passing", "from testing import assert_eq\n\ndef test_ok() -> None:\n    assert_eq(1 + 1, 2)\n", true),
         ("failing_assert", "from testing import assert_eq\n\ndef test_bad() -> None:\n    assert_eq(1 + 1, 3)\n", false),
+        ("failing_with_result_type", "def test_res() -> Result[None, str]:\n    return Err(\"boom\")\n", false),
         ("failing_zero_division", "from testing import assert_eq\n\ndef test_div() -> None:\n    a = 0\n    b = 1 // a\n    assert_eq(b, 0)\n", false),
     ];
     for (name, src, should_pass) in cases {
@@ -482,6 +483,35 @@ pub fn testrun_main(args: &[String]) {
             println!("OK {name} reported as {}", if passed { "passed" } else { "failed" });
         } else {
             println!("BROKEN {name} the test function {} but `incan test` reports {}", if should_pass { "passes" } else { "fails" }, if passed { "success" } else { "failure" });
+        }
+    }
+    // selection: -k keyword without --slow must leave a matching @slow test out (it would fail); @skip wins over @xfail whatever the order
+    {
+        let d = dir.join("selection");
+        std::fs::create_dir_all(&d).unwrap();
+        std::fs::write(
+            d.join("test_selection.incn"),
+            "from testing import assert_eq\n\ndef test_sync_quick() -> None:\n    assert_eq(1, 1)\n\n@slow\ndef test_sync_full() -> None:\n    assert_eq(1, 2)\n",
+        )
+        .unwrap();
+        let r = run_tests(d.to_str().unwrap(), false, false, false, Some("sync"), false, false);
+        if r.is_ok() {
+            println!("OK selection_k_without_slow the @slow test was left out");
+        } else {
+            println!("BROKEN selection_k_without_slow `-k sync` without --slow ran the @slow test (it fails) - exit status failure");
+        }
+        let d2 = dir.join("markers");
+        std::fs::create_dir_all(&d2).unwrap();
+        std::fs::write(
+            d2.join("test_markers.incn"),
+            "from testing import assert_eq\n\n@xfail(\"known\")\n@skip(\"not now\")\ndef test_xfail_above_skip() -> None:\n    assert_eq(1, 1)\n\ndef test_plain() -> None:\n    assert_eq(1, 1)\n",
+        )
+        .unwrap();
+        let r = run_tests(d2.to_str().unwrap(), false, false, true, None, false, false);
+        if r.is_ok() {
+            println!("OK skip_with_xfail the @skip test was not run");
+        } else {
+            println!("BROKEN skip_with_xfail a test carrying @skip (below @xfail) was run and its passing counted as a failure");
         }
     }
     let _ = std::env::set_current_dir("/");
